@@ -144,6 +144,12 @@ def find_byte_loops(fn, F=None):
                     if not isptr and f[0] == "uge" and M.strip(f[1]) == ("v", phi.id):
                         k = "counted"
                         bl.bound = f[2]
+                    if isptr and f[0] == "uge" and M.strip(f[1], ("bitcast",)) == ("v", phi.id):
+                        # pointer walk up to an end pointer: end = start + n for the same start the walk begins at
+                        e = M.match(("gep", ("bind", "b0"), [("bind", "n")]), f[2], {})
+                        if e is not None and (e["b0"] == M.strip(bl.init, ("bitcast",)) or M.equiv(e["b0"], M.strip(bl.init, ("bitcast",)))):
+                            k = "counted"
+                            bl.bound = e["n"]
                 kinds.add(k)
             bl.unvisited_ok = None not in kinds and len(kinds) == 1
             bl.exit = kinds.pop() if len(kinds) == 1 else None
